@@ -1043,8 +1043,12 @@ class Deferred(Awaitable[_SelfResultT]):
             if current.paused:
                 # This Deferred isn't going to produce a result at all.  All the
                 # Deferreds up the chain waiting on it will just have to...
-                # wait.
-                return
+                # wait.  The Deferreds further down the stack are not waiting
+                # on it, though: they handed their result over and still have
+                # the rest of their own callbacks to run, so go back to them
+                # rather than returning.
+                chain.pop()
+                continue
 
             finished = True
             current._chainedTo = None
@@ -1115,8 +1119,12 @@ class Deferred(Awaitable[_SelfResultT]):
                             resultResult is _NO_RESULT
                             or type(resultResult) in _DEFERRED_SUBCLASSES
                             or currentResult.paused
+                            or currentResult.callbacks
                         ):
-                            # Nope, it didn't.  Pause and chain.
+                            # Nope, it didn't (or it is in the middle of
+                            # running its own callbacks, further down this
+                            # stack or up the call stack, so what it holds
+                            # now is not yet its result).  Pause and chain.
                             current.pause()
                             current._chainedTo = currentResult
                             # Note: current.result has no result, so it's not
